@@ -4,6 +4,7 @@ import json, os, shutil, subprocess, sys
 sys.path.insert(0, os.path.dirname(os.path.abspath(__file__)))
 from seeded import verify
 prop, wt = sys.argv[1], sys.argv[2]
+offset = int(sys.argv[3]) if len(sys.argv) > 3 else 0     # round 3 seeds are numbered from 4
 for i in (1, 2, 3, 4):
     d = os.path.join(wt, 'out', 'change%d.diff' % i)
     demo = os.path.join(wt, 'out', 'demo%d.py' % i)
@@ -14,7 +15,7 @@ for i in (1, 2, 3, 4):
     print(prop, i, 'confirmed' if v.get('confirmed') else 'REJECTED', json.dumps({k: v[k] for k in v if k not in ('diff', 'demo')}))
     if not v.get('confirmed'):
         continue
-    dst = os.path.join('/verif/seeded', '%s-%d' % (prop, i))
+    dst = os.path.join('/verif/seeded', '%s-%d' % (prop, i + offset))
     os.makedirs(dst, exist_ok=True)
     shutil.copy(d, os.path.join(dst, 'patch.diff'))
     shutil.copy(demo, os.path.join(dst, 'demo.py'))
